@@ -15,7 +15,6 @@
 
    No proofs here.  Executable specs (`spec_*`) and the comparison functions used by checks/C29.py are at the end. *)
 From QV Require Export Base.Util.
-From QV Require Import C36.Model.      (* civil_from_days / days_from_civil / is_leap / dim / add_months / trunc_days *)
 Local Open Scope Z_scope.
 
 Definition b2z (b : bool) : Z := if b then 1 else 0.
@@ -170,6 +169,32 @@ Definition lit_op_before_fix := lit_with f_op_before_fix.
 (* =====================================================================================================
    3. date32_to_naive and chrono's from_num_days_from_ce_opt
    ===================================================================================================== *)
+(* ---- the specification of a calendar date: proleptic Gregorian civil date <-> days since 1970-01-01
+   (Hinnant's civil_from_days / days_from_civil).  Textually the same functions as the date specification of C36
+   (coq/theories/C36/Model.v); copied so that C29 does not depend on the scalar-function model. ---- *)
+Definition civil_from_days (z0 : Z) : Z * Z * Z :=
+  let z := z0 + 719468 in
+  let era := z / 146097 in
+  let doe := z mod 146097 in
+  let yoe := (doe - doe / 1460 + doe / 36524 - doe / 146096) / 365 in
+  let doy := doe - (365 * yoe + yoe / 4 - yoe / 100) in
+  let mp := (5 * doy + 2) / 153 in
+  let d := doy - (153 * mp + 2) / 5 + 1 in
+  let m := if mp <? 10 then mp + 3 else mp - 9 in
+  (yoe + era * 400 + (if m <=? 2 then 1 else 0), m, d).
+Definition days_from_civil (y0 m d : Z) : Z :=
+  let y := if m <=? 2 then y0 - 1 else y0 in
+  let era := y / 400 in
+  let yoe := y mod 400 in
+  let doy := (153 * (if 2 <? m then m - 3 else m + 9) + 2) / 5 + d - 1 in
+  let doe := yoe * 365 + yoe / 4 - yoe / 100 + doy in
+  era * 146097 + doe - 719468.
+Definition is_leap (y : Z) : bool := ((y mod 4 =? 0) && negb (y mod 100 =? 0)) || (y mod 400 =? 0).
+Definition dim (y m : Z) : Z :=
+  if m =? 2 then (if is_leap y then 29 else 28)
+  else if (m =? 4) || (m =? 6) || (m =? 9) || (m =? 11) then 30 else 31.
+Definition valid_ymd (y m d : Z) : bool := (1 <=? m) && (m <=? 12) && (1 <=? d) && (d <=? dim y m).
+
 (* i32 arithmetic with the overflow made explicit *)
 Inductive R (A : Type) := ROk (a : A) | RPanic.
 Arguments ROk {A} a.  Arguments RPanic {A}.
@@ -237,6 +262,10 @@ Fixpoint md_go (fuel : nat) (leap : bool) (m ord : Z) : Z * Z :=
 Definition md_of_ordinal (leap : bool) (ord : Z) : Z * Z := md_go 11 leap 1 ord.
 Definition ymd_of (yo : Z * Z) : Z * Z * Z :=
   let '(y, o) := yo in let '(m, d) := md_of_ordinal (is_leap y) o in (y, m, d).
+
+(* the conversion with the calendar fields spelled out *)
+Definition naive_ymd (days : Z) : R (option (Z * Z * Z)) :=
+  match date32_to_naive days with RPanic => RPanic | ROk None => ROk None | ROk (Some yo) => ROk (Some (ymd_of yo)) end.
 
 (* the Date32 values chrono can represent: -262143-01-01 .. 262142-12-31 *)
 Definition DMIN := -96465292.
